@@ -97,6 +97,20 @@ func (ig *itemGo) up(v ssa.Value) ssa.Value {
 	for i := 0; i < 8; i++ {
 		switch x := v.(type) {
 		case *ssa.Parameter:
+			// a parameter of the item goroutine's own function: the argument of the `go` statement
+			// (`go func(i int, item any) { … }(i, input.data[i])`)
+			if ig.goI != nil && x.Parent() == ig.body {
+				bound := false
+				for k, fp := range ig.body.Params {
+					if fp == x && k < len(ig.goI.Call.Args) {
+						v = ig.goI.Call.Args[k]
+						bound = true
+					}
+				}
+				if bound {
+					continue
+				}
+			}
 			arg, ok := paramBinding[x]
 			if !ok {
 				return v
